@@ -224,6 +224,21 @@ ModelCollapseProps(pre, he, m) ==
      /\ ok(m.pV, pairs.V) /\ ok(m.pC, pairs.C) /\ ok(m.pE, pairs.E) /\ ok(m.pHE, pairs.HE)
      /\ ok(m.pF, pairs.F) /\ ok(m.pHF, pairs.HF)
 
+(* C03 on the model through split_edge / split_face (tokens = pre slot)      *)
+ModelSplitProps(pre, c, m) ==
+  LET S == IF c.op = "split_edge" THEN EdgeVertSet(pre, Full(c.a)) ELSE FaceVertSet(pre, c.a)
+      n == c.b
+  IN (SplitInContract(pre, S, n) /\ m.nv = pre.nv /\ TetShape(m)) =>
+     LET pairs == SplitPropPairs(pre, m)
+         ok(p, ps) == \A x \in ps : At(p, x[1]) = x[2]
+         fresh(p, k) == \A j \in SplitNewSlots(m, n, k) : At(p, j) = DefaultTok
+     IN /\ Len(m.pV) = m.nv /\ Len(m.pE) = Len(m.edges) /\ Len(m.pHE) = 2 * Len(m.edges)
+        /\ Len(m.pF) = Len(m.faces) /\ Len(m.pHF) = 2 * Len(m.faces) /\ Len(m.pC) = Len(m.cells)
+        /\ ok(m.pV, pairs.V) /\ ok(m.pC, pairs.C) /\ ok(m.pE, pairs.E) /\ ok(m.pHE, pairs.HE)
+        /\ ok(m.pF, pairs.F) /\ ok(m.pHF, pairs.HF)
+        /\ fresh(m.pE, "E") /\ fresh(m.pHE, "HE") /\ fresh(m.pF, "F") /\ fresh(m.pHF, "HF")
+        /\ SplitChildrenOK(pre, S, n, m, [v |-> Iota(Len(pre.cells)), d |-> DefaultTok], [v |-> m.pC, d |-> DefaultTok])
+
 XModelCheck(pre, c, m) ==
   IF m.err # "" THEN "NoInternalError:" \o m.err
   ELSE IF ~WellFormed(m) THEN "WellFormed"
@@ -235,6 +250,7 @@ XModelCheck(pre, c, m) ==
         ELSE IF c.op = "collapse_edge" /\ CollapseInContract(pre, c.a) /\ ~CollapseRel(pre, c.a, m, m.ret, m.gV)
              THEN "C15:CollapseRel"
         ELSE IF c.op = "collapse_edge" /\ CollapseInContract(pre, c.a) /\ ~ModelCollapseProps(pre, c.a, m) THEN "C03:ModelCollapseProps"
+        ELSE IF c.op \in {"split_edge", "split_face"} /\ ~ModelSplitProps(pre, c, m) THEN "C03:ModelSplitProps"
         ELSE IF c.op = "collapse_edge" /\ (m.deferred # pre.deferred \/ m.fast # pre.fast) THEN "collapse:modes"
         ELSE IF c.op \in {"tet_add_cell_4", "tet_add_cell_v"} /\ ~AddTetRel(pre, c.l, m, m.ret) THEN "AddTetRel"
         ELSE IF c.op \in {"add_face", "add_cell"} /\ m.ret = -1 /\ ~Unchanged(pre, m) THEN "RejectLeavesUnchanged"
